@@ -296,31 +296,27 @@ def mkFloat (neg : Bool) (intDs fracDs : List Char) (expNeg : Bool) (expDs : Lis
   let p := stripZeros (intDs.length + fracDs.length + 1) m e
   .float (.fin neg p.1 p.2)
 
+/-- An optional `+` or `-` (`recognize_float` accepts both, for the number and for the exponent). -/
+def stripPlusMinus (inp : List Char) : Bool × List Char :=
+  match inp with
+  | '-' :: r => (true, r)
+  | '+' :: r => (false, r)
+  | _ => (false, inp)
+
 /-- Optional exponent of `recognize_float`: `[eE][+-]?digit+`; an `e` not followed by digits is a hard failure (`cut`). -/
 def lexExponent (inp : List Char) : Option (Bool × List Char × List Char) :=
   match inp with
   | c :: r =>
     if c = 'e' ∨ c = 'E' then
-      let (eneg, r') := match r with
-        | '-' :: r' => (true, r')
-        | '+' :: r' => (false, r')
-        | _ => (false, r)
-      match r'.takeWhile isDigit with
+      match (stripPlusMinus r).2.takeWhile isDigit with
       | [] => none
-      | ds => some (eneg, ds, r'.dropWhile isDigit)
+      | ds => some ((stripPlusMinus r).1, ds, (stripPlusMinus r).2.dropWhile isDigit)
     else some (false, [], inp)
   | [] => some (false, [], inp)
 
-/-- `nom::number::double` restricted to `recognize_float` (the `nan`/`inf` alternatives are unreachable behind
-`identifier`): `[+-]? (digit+ ('.' digit*)? | '.' digit+) ([eE][+-]?digit+)?`, value as an exact decimal. -/
-def lexFloat (inp : List Char) : Option (Value × List Char) :=
-  let (neg, r) := match inp with
-    | '-' :: r => (true, r)
-    | '+' :: r => (false, r)
-    | _ => (false, inp)
-  let intDs := r.takeWhile isDigit
-  let r1 := r.dropWhile isDigit
-  match intDs, r1 with
+/-- `recognize_float` after the sign: `(digit+ ('.' digit*)? | '.' digit+) ([eE][+-]?digit+)?`. -/
+def lexFloatBody (neg : Bool) (r : List Char) : Option (Value × List Char) :=
+  match r.takeWhile isDigit, r.dropWhile isDigit with
   | [], '.' :: r2 =>
     match r2.takeWhile isDigit with
     | [] => none
@@ -329,14 +325,19 @@ def lexFloat (inp : List Char) : Option (Value × List Char) :=
       | some (en, eds, rest) => some (mkFloat neg [] fr en eds, rest)
       | none => none
   | [], _ => none
-  | _, '.' :: r2 =>
+  | intDs, '.' :: r2 =>
     match lexExponent (r2.dropWhile isDigit) with
     | some (en, eds, rest) => some (mkFloat neg intDs (r2.takeWhile isDigit) en eds, rest)
     | none => none
-  | _, _ =>
+  | intDs, r1 =>
     match lexExponent r1 with
     | some (en, eds, rest) => some (mkFloat neg intDs [] en eds, rest)
     | none => none
+
+/-- `nom::number::double` restricted to `recognize_float` (the `nan`/`inf` alternatives are unreachable behind
+`identifier`): `[+-]? (digit+ ('.' digit*)? | '.' digit+) ([eE][+-]?digit+)?`, value as an exact decimal. -/
+def lexFloat (inp : List Char) : Option (Value × List Char) :=
+  lexFloatBody (stripPlusMinus inp).1 (stripPlusMinus inp).2
 
 /-- `decimal_or_float` after the optional `-` has been stripped (`inp` = the whole input, for the float branch). -/
 def lexDecimalBody (neg : Bool) (r inp : List Char) : Option (Value × List Char) :=
